@@ -340,10 +340,10 @@ def e_prelude(derived):
     return f
 
 
-def e_pipeline(name, units, contracts, enforce, replace, harness, note, maythrow=None, scenario='members'):
+def e_pipeline(name, units, contracts, enforce, replace, harness, note, maythrow=None, scenario='members', throws=True):
     PIPELINES.append(Pipeline(name, units=units, prelude=e_prelude('ChangesetDiscussionBuilder' if 'Discussion' in name else None), contracts=contracts, enforce=enforce,
-                              replace=replace, maythrow=maythrow or {}, harness=harness + ' __CPROVER_assert(verif_exc != 0, "canary:normal"); __CPROVER_assert(verif_exc == 0, "canary:throw"); }',
-                              canaries=['canary:normal', 'canary:throw'], replay=('c04_buffer', lambda cex, o: [scenario]), note=note))
+                              replace=replace, maythrow=maythrow or {}, harness=harness + ' __CPROVER_assert(verif_exc != 0, "canary:normal"); ' + ('__CPROVER_assert(verif_exc == 0, "canary:throw"); }' if throws else '}'),
+                              canaries=['canary:normal', 'canary:throw'] if throws else ['canary:normal'], replay=('c04_buffer', lambda cex, o: [scenario]), note=note))
 
 
 def size_setter_contract(itemparam, limit, what):
@@ -386,8 +386,11 @@ U_e_addcomment = Unit(OOB, 'add_comment', cls='ChangesetDiscussionBuilder', cnam
                       params=['Timestamp date', 'user_id_type uid', 'const char* user'],
                       pre=[(r'auto\* comment = reserve_space_for<osmium::ChangesetComment>\(\);', 'ChangesetComment* comment = (ChangesetComment*)E_reserve_space_for(self, sizeof(ChangesetComment));'),
                            (r'new \(comment\) osmium::ChangesetComment\{[^}]*\};', r'E_construct(comment);'),
-                           (r'buffer\(\)\.written\(\) - buffer\(\)\.committed\(\)', '(self->m_buffer->m_written - self->m_buffer->m_committed)'),
+                           (r'buffer\(\)\.written\(\)', 'self->m_buffer->m_written'), (r'buffer\(\)\.committed\(\)', 'self->m_buffer->m_committed', '?'),
                            (r'std::strlen\(', 'verif_strlen(')])
+U_e_curcomment = Unit(OOB, 'current_comment', cls='ChangesetDiscussionBuilder', cname='Builder_current_comment', selftype=SB, ret='ChangesetComment*',
+                      pre=[(r'return \*reinterpret_cast<osmium::ChangesetComment\*>\((.*)\);', r'return (ChangesetComment*)(\1);'),
+                           (r'buffer\(\)\.data\(\)', 'self->m_buffer->m_data'), (r'buffer\(\)\.committed\(\)', 'self->m_buffer->m_committed', '?'), (r'buffer\(\)\.written\(\)', 'self->m_buffer->m_written', '?')])
 U_e_addctext = Unit(OOB, 'add_comment_text', cls='ChangesetDiscussionBuilder', cname='Builder_add_comment_text', selftype=SB, sig=r'const char\* text', stub_siblings=CDSIB,
                     pre=[(r'osmium::ChangesetComment& comment = current_comment\(\);', 'ChangesetComment* comment_p = current_comment();'), (r'add_text\(comment, ', 'add_text(comment_p, '),
                          (r'std::strlen\(', 'verif_strlen(')])
@@ -411,6 +414,15 @@ e_pipeline('U11_ChangesetDiscussionBuilder_add_comment', [U_e_adduser, U_e_addco
     ['E_reserve_space_for', 'E_construct', 'E_add_size', 'Builder_add_user', 'verif_strlen'],
     'void harness(void) { struct Builder* b; Timestamp d; user_id_type u; const char* t; Builder_add_comment(b, d, u, t);',
     'the comment is constructed and handed to add_user in the epoch its space was reserved in', maythrow={'E_reserve_space_for': False, 'Builder_add_user': True}, scenario='discussion')
+e_pipeline('U11_ChangesetDiscussionBuilder_current_comment', [U_e_curcomment], {'Builder_current_comment': [
+    ('pre:a comment is open inside the uncommitted part of the buffer', 'requires', 'EPOCH_OK && __CPROVER_is_fresh(self, sizeof(*self)) && __CPROVER_is_fresh(self->m_buffer, sizeof(struct Buffer)) && '
+     'self->m_buffer->m_capacity <= (1u << 28) && __CPROVER_is_fresh(self->m_buffer->m_data, self->m_buffer->m_capacity) && self->m_buffer->m_committed <= self->m_buffer->m_written && '
+     'self->m_buffer->m_written <= self->m_buffer->m_capacity && self->m_comment_offset <= self->m_buffer->m_written - self->m_buffer->m_committed'),
+    ('post:the address is the current buffer memory + the committed position + the remembered relative position (the counterpart of the add_comment postcondition)', 'ensures',
+     '__CPROVER_pointer_equals(__CPROVER_return_value, (ChangesetComment*)(self->m_buffer->m_data + self->m_buffer->m_committed + self->m_comment_offset))'),
+    ('frame', 'assigns', '')]}, 'Builder_current_comment', [],
+    'void harness(void) { struct Builder* b; ChangesetComment* c = Builder_current_comment(b);',
+    'the address of the open comment is formed from data(), committed() and the relative offset on every call', scenario='discussion', throws=False)
 e_pipeline('U11_ChangesetDiscussionBuilder_add_comment_text', [U_e_addtext, U_e_addctext], {'Builder_add_text': TEXT_CONTRACT, 'Builder_add_comment_text': [
     ('pre:a comment is open; any number of buffer moves may lie between add_comment and this call', 'requires', 'EPOCH_OK && __CPROVER_is_fresh(self, sizeof(*self)) && self->m_comment_offset != ' + NO_COMMENT +
      ' && ghost_n <= 100000 && __CPROVER_is_fresh(text, ghost_n + 1) && text[ghost_n] == 0'),
